@@ -56,6 +56,8 @@ SmallCases ==
     \cup {[fam |-> "compound", op |-> op, a |-> a, b |-> b, c |-> c] :
              op \in {"+", "-", "*", "<<", "&"}, a \in {IntV(1), StrV(<<97>>)}, b \in {IntV(5)}, c \in {IntV(2), StrV(<<98>>)}}
     \cup {[fam |-> "bin", op |-> op, a |-> a, b |-> b] : op \in {"in", "instanceof", "===", "!=="}, a \in Vals \cup Fns, b \in Fns}
+    \cup {[fam |-> f, op |-> op] : f \in {"order1", "order2"},
+             op \in {"+", "-", "*", "/", "%", "<", ">", "<=", ">=", "==", "!=", "&", "|", "^", "<<", ">>", ">>>"}}
     \cup {[fam |-> "bin", op |-> op, a |-> NumV(a), b |-> NumV(b)] :
              op \in {"+", "-", "*", "/", "%", "<", "==", "===", ">>>", "|"}, a \in Extremes, b \in Nums \cup Extremes}
     \cup {[fam |-> "bin", op |-> op, a |-> NumV(b), b |-> NumV(a)] :
@@ -80,6 +82,10 @@ Js(c) ==
                [] c.f = "ToUint16" -> <<"String.fromCharCode(", Lit(c.a), ").charCodeAt(0)">>)
       [] c.fam = "logic" -> <<"(H(1),", Lit(c.a), ") " \o c.op \o " (H(2),", Lit(c.b), ")">>
       [] c.fam = "cond" -> <<"(H(1),", Lit(c.a), ") ? (H(2),1) : (H(3),2)">>
+      \* GetValue of both operands precedes every conversion: a conversion that assigns the
+      \* other operand's variable must not be seen (order1: right operand, order2: left operand)
+      [] c.fam = "order1" -> <<"var b = 1; var a = {valueOf: function(){ b = 100; return 3; }}; a " \o c.op \o " b">>
+      [] c.fam = "order2" -> <<"var a = 3; a " \o c.op \o " (a = 50, 1)">>
       [] c.fam = "compound" -> <<"var x = ", Lit(c.a), "; x " \o c.op \o "= (x = ", Lit(c.b), ", ", Lit(c.c), "); x">>
 
 Expect(Bin(_, _, _, _), Un(_, _, _), Conv(_, _, _), TB(_), c) ==
@@ -91,6 +97,7 @@ Expect(Bin(_, _, _, _), Un(_, _, _), Conv(_, _, _), TB(_), c) ==
             ELSE [thr |-> "", v |-> c.a, log |-> <<HLog(1)>>]
       [] c.fam = "cond" -> IF TB(c.a) THEN [thr |-> "", v |-> IntV(1), log |-> <<HLog(1), HLog(2)>>]
                            ELSE [thr |-> "", v |-> IntV(2), log |-> <<HLog(1), HLog(3)>>]
+      [] c.fam \in {"order1", "order2"} -> Bin(c.op, IntV(3), IntV(1), <<>>)
       [] c.fam = "compound" -> Bin(c.op, c.a, c.c, <<>>)      \* 11.13.2: GetValue(lref) precedes the right operand
 
 (* object results are compared by identity *)
